@@ -91,7 +91,7 @@ Ltac finish_local :=
 Lemma micro_loc_next c tid s l s' l' :
   own_ok c s tid l -> loc_ok c s tid l -> micro c tid s l = Next s' l' -> loc_ok c s' tid l'.
 Proof.
-  intros [Hwf [Hreg Hex]] [Hmir Hloc] Hm. unfold local_ok in Hloc.
+  intros [Hwf [Hreg [Hex Hsn]]] [Hmir Hloc] Hm. unfold local_ok in Hloc.
   own_cases Hm Hwf; unfold loc_ok, local_ok, mk_le in *; cbn in *; rewrite ?Eo in *; cbn in *;
     try (destruct (reserve_locks c) eqn:Erl; cbn in *; try discriminate);
     try specialize (Hmir eq_refl);
@@ -99,11 +99,14 @@ Proof.
 Qed.
 
 Lemma micro_loc_fin c tid s l s' d :
-  own_ok c s tid l -> loc_ok c s tid l -> micro c tid s l = Fin s' d -> wf_drec c tid d.
+  heap_ok s -> own_ok c s tid l -> loc_ok c s tid l -> micro c tid s l = Fin s' d -> wf_drec c tid d.
 Proof.
-  intros [Hwf [Hreg Hex]] [Hmir Hloc] Hm. unfold local_ok in Hloc.
+  intros Hh [Hwf [Hreg [Hex Hsn]]] [Hmir Hloc] Hm. unfold local_ok in Hloc.
   own_cases Hm Hwf; unfold loc_ok, local_ok, wf_drec, mk_le, mk_de, mk_drec in *; cbn in *; rewrite ?Eo in *; cbn in *;
     try (exfalso; apply Hex; [reflexivity|assumption]);
+    try (exfalso; specialize (Hsn eq_refl); congruence);
+    try (exfalso; destruct Hh as [Hh1 _];
+         match goal with H : ptr ?s0 ?p0 = None |- _ => specialize (Hh1 p0); rewrite H in Hh1; congruence end);
     try (destruct (pend l) eqn:Ep; cbn in * );
     finish_local; try tauto.
 Qed.
@@ -154,7 +157,7 @@ Qed.
 
 Lemma Inv2_step c s w : Inv1 c s -> Inv2 c s -> Inv2 c (step c s w).
 Proof.
-  intros H1 HI. destruct w as [|tid0]; cbn [step].
+  intros H1 HI. pose proof (proj2 H1) as H1t. unfold Inv1t in H1t. destruct w as [|tid0]; cbn [step].
   - intros tid. destruct (HI tid) as [Ha Hb]. split; [|exact Hb].
     intros l Hc. cbn in Hc. specialize (Ha l Hc). unfold loc_ok in *. unfold step_settler.
     destruct (sreg (shs s)); [|destruct (chan (shs s))]; cbn; assumption.
@@ -168,7 +171,7 @@ Proof.
     + pose proof (standing_own c s tid0 l0 r H1 Hs) as Ho. pose proof (standing_loc c s tid0 l0 r HI Hs) as Hl.
       intros tid. cbn.
       destruct (upd_cases (thr s) tid0 {| prog := r; cur := None; done := d :: done (thr s tid0) |} tid) as [[-> Hu]|[Hn Hu]]; rewrite Hu; cbn.
-      * split; [intros l Hc; discriminate|]. constructor; [eapply micro_loc_fin; eauto | apply HI].
+      * split; [intros l Hc; discriminate|]. constructor; [eapply micro_loc_fin; eauto; exact (proj1 H1) | apply HI].
       * destruct (HI tid) as [Ha Hb]. split; [|exact Hb]. intros l Hc.
         eapply micro_loc_frame; eauto using micro_sh_fin.
 Qed.
